@@ -30,6 +30,7 @@ CONSTANTS BlockLists, AllowLists,
           SchedBeh,     \* ... in a scheduled refresh
           FileBeh,      \* behaviours of a local-path list
           SetURLBeh,    \* failing behaviours of the new location in a refused set_url ({}: no such action)
+          Toggle,       \* TRUE: the admin may disable and enable lists (set_url, same URL)
           SetURLAsIs    \* FALSE; TRUE: negative control, the roll-back forgets the checksum (must violate InvCoherent)
 
 Lists == BlockLists \cup AllowLists
@@ -91,6 +92,10 @@ BehSetURL == {B("status", T2, 0, "500"), B("cutBeforeHeaders", <<>>, 0, ""), B("
               OkB(TH), B("cutMidLine", TCUT, 4, "cl")}
 BehNone   == {}
 
+\* The admin universe: refused set_url, disable, enable - with a rule-less list.
+BehAdmin      == {OkB(T1), OkB(T2), OkB(TC), B("connError", <<>>, 0, "")}
+BehAdminSched == {OkB(T1), OkB(TC), B("connError", <<>>, 0, "")}
+
 \* A tiny set for the three-list configuration.
 BehTiny == {OkB(T1), OkB(T2), B("connError", <<>>, 0, ""), B("cutMidLine", TCUT, 4, "cl")}
 
@@ -138,14 +143,14 @@ Emit(c, src, act, script, dst, rew, failed) ==
 
 Init == /\ phase = "boot"
         /\ cfg = [enabled |-> [l \in Lists |-> TRUE], src |-> [l \in Lists |-> "http"], cosm |-> CosmC]
-        /\ S = S0
+        /\ S = S0(cfg)
 
 Boot == /\ phase = "boot"
         /\ \E c \in Configs :
              /\ cfg' = c
-             /\ S' = S0
+             /\ S' = S0(c)
              /\ phase' = "run"
-             /\ Emit(c, S0, [a |-> "boot"], <<>>, S0, {}, {})
+             /\ Emit(c, S0(c), [a |-> "boot"], <<>>, S0(c), {}, {})
 
 \* The statement, asserted on EVERY generated transition (an invariant over a
 \* history variable would multiply the state space by the number of scripts).
@@ -156,7 +161,7 @@ StepProps(sel, script, post, rew) ==
 
 Refresh(act) ==
     /\ phase = "run"
-    /\ LET sel == Selected(cfg, act) IN
+    /\ LET sel == Selected(S, act) IN
        \E script \in {s \in [sel -> UNION {Behs(l, act.mode) : l \in sel}] :
                           \A l \in sel : s[l] \in Behs(l, act.mode)} :
        \E r \in Results(cfg, S, act, script) :
@@ -183,7 +188,7 @@ Restart == /\ phase = "run"
 SetURLFail ==
     /\ phase = "run"
     /\ \E l \in Lists, b \in SetURLBeh :
-         /\ cfg.enabled[l] /\ cfg.src[l] = "http"
+         /\ S.en[l] /\ cfg.src[l] = "http"
          /\ Assert(MustFail(cfg, b), "set_url behaviour must be a failure")
          /\ S' = (IF SetURLAsIs THEN SetURLFailedAsIs(S, l) ELSE SetURLFailed(cfg, S, l))
          /\ PrintT(<<"@@V", ToJson([cfg |-> cfg, src |-> S, act |-> [a |-> "seturl", list |-> l],
@@ -192,7 +197,38 @@ SetURLFail ==
          /\ Assert(SetURLAsIs \/ S' = S, "FailedSetURLChangesNothing")
     /\ UNCHANGED <<phase, cfg>>
 
-Next == Boot \/ Forced \/ Sched \/ Restart \/ SetURLFail
+\* Disable / Enable through set_url with the same URL (see the Core).
+EmitT(act, script, r) ==
+    PrintT(<<"@@V", ToJson([cfg |-> cfg, src |-> S, act |-> act, script |-> script, dst |-> r.st,
+                            rew |-> r.rew, failed |-> r.failed, asis |-> r.asis, rewfree |-> r.rewfree])>>)
+
+Disable ==
+    /\ Toggle /\ phase = "run"
+    /\ \E l \in Lists :
+         /\ S.en[l]
+         /\ S' = Disabled(S, l)
+         /\ EmitT([a |-> "disable", list |-> l], <<>>,
+                  [st |-> S', asis |-> S', rew |-> {}, failed |-> {}, rewfree |-> {}])
+    /\ UNCHANGED <<phase, cfg>>
+
+Enable ==
+    /\ Toggle /\ phase = "run"
+    /\ \E l \in Lists :
+         /\ ~S.en[l]
+         /\ \E b \in Behs(l, "forced") : \E r \in EnableResults(cfg, S, l, b) :
+              /\ S' = r.st
+              /\ EmitT([a |-> "enable", list |-> l], [x \in {l} |-> b], r)
+              \* a refused request changes nothing; an accepted one stores the
+              \* normal form of what was served and puts it in force
+              /\ Assert(r.failed # {} => S' = S, "RefusedEnableChangesNothing")
+              /\ Assert(r.failed = {} =>
+                          \E o \in Outcomes(cfg, b) :
+                              /\ o.ok /\ S'.file[l] = FileOf(o.rules) /\ S'.count[l] = Count(o.rules)
+                              /\ Parse(Normal(S'.file[l].rules), Pol(cfg)).rules = o.rules,
+                        "EnableStoresNormalForm")
+    /\ UNCHANGED <<phase, cfg>>
+
+Next == Boot \/ Forced \/ Sched \/ Restart \/ SetURLFail \/ Disable \/ Enable
 Spec == Init /\ [][Next]_vars
 
 ------------------------------------------------------------------------------
